@@ -12,10 +12,10 @@ import (
 
 // pairView is the pairwise relation of one query to the reference, in reference coordinates.
 type pairView struct {
-	L    int
-	ref  []byte      // ref[p-1]: reference symbol at position p (upper case)
-	qry  []byte      // qry[p-1]: query symbol aligned to position p ('-' if deleted)
-	ins  map[int]int // slot p (0..L, after p reference bases) -> number of query symbols inserted there
+	L           int
+	ref         []byte      // ref[p-1]: reference symbol at position p (upper case)
+	qry         []byte      // qry[p-1]: query symbol aligned to position p ('-' if deleted)
+	ins         map[int]int // slot p (0..L, after p reference bases) -> number of query symbols inserted there
 	bothGapCols int
 }
 
